@@ -8,14 +8,24 @@ Rec == ndJsonDeserialize(IOEnv.TRACE)
 VARIABLES c, l
 Init == c = Day0 /\ l = 1
 
+\* "far" events (after the walked ones) lie beyond the range worth walking: they carry their civil
+\* fields, which must satisfy the closed form (tied to the automaton by MC_Calendar)
+IsFar(e) == e.k = "far"
 EventOk(e) == e.ok /\ e.out = Field(e.p, c, e.sod)
-Advance == /\ l <= Len(Rec) /\ Rec[l].day > c.day
+FarOk(e) == e.ok /\ e.out = Field(e.p, e.c, e.sod)
+Advance == /\ l <= Len(Rec) /\ ~IsFar(Rec[l]) /\ Rec[l].day > c.day
            /\ c' = NextDayOf(c) /\ l' = l
-Check   == /\ l <= Len(Rec) /\ Rec[l].day = c.day
+Check   == /\ l <= Len(Rec) /\ ~IsFar(Rec[l]) /\ Rec[l].day = c.day
            /\ IF EventOk(Rec[l]) THEN TRUE ELSE PrintT("MISMATCH " \o ToString(l))
            /\ l' = l + 1 /\ c' = c
-Next == Advance \/ Check
+CheckFar == /\ l <= Len(Rec) /\ IsFar(Rec[l])
+            /\ IF ~ValidCivil(Rec[l].c) THEN PrintT("MISMATCH " \o ToString(l) \o " recorder-civil-fields")
+               ELSE IF FarOk(Rec[l]) THEN TRUE ELSE PrintT("MISMATCH " \o ToString(l))
+            /\ l' = l + 1 /\ c' = c
+Next == Advance \/ Check \/ CheckFar
 Spec == Init /\ [][Next]_<<c, l>>
-AllConsumed == IF TLCGet("stats").diameter = Len(Rec) + 1 + Rec[Len(Rec)].day THEN TRUE
+Walked == { i \in 1..Len(Rec) : ~IsFar(Rec[i]) }
+LastWalkDay == IF Walked = {} THEN 0 ELSE Rec[CHOOSE i \in Walked : \A j \in Walked : j <= i].day
+AllConsumed == IF TLCGet("stats").diameter = Len(Rec) + 1 + LastWalkDay THEN TRUE
                ELSE PrintT("UNCONSUMED " \o ToString(TLCGet("stats").diameter)) /\ FALSE
 =============================================================================
